@@ -10,7 +10,7 @@ use crate::common::Ctx;
 use crate::maphist::parse_listing;
 use crate::panicsafe::layouts;
 use micromap::Set;
-use support::elems::TK;
+use support::elems::{z_set_eq, TK, Z};
 use support::frame::{addr_of, Frame};
 use support::ledger;
 use support::rng::{Fp, Rng};
@@ -70,7 +70,7 @@ impl<'a> Alg<'a> {
                 let mut o = Vec::new();
                 while let Some(k) = c.next() {
                     o.push(k.id);
-                    if o.len() > 80 {
+                    if o.len() > a.len() + b.len() + 2 {
                         break;
                     }
                 }
@@ -299,6 +299,50 @@ impl<'a> Alg<'a> {
         if ledger::viol_total() > 0 {
             let d = self.descr.clone();
             self.cx.rep.absorb_violations("C08", &|| vec![d.clone()]);
+        }
+    }
+
+    /// zero-sized elements: all equal (a set holds at most one) or all different (nothing is shared)
+    pub fn zst<const N: usize, const M: usize>(&mut self) {
+        ledger::set_ctx(self.pair_no, 0, "algebra(zero-sized)");
+        for all_equal in [true, false] {
+            z_set_eq(all_equal);
+            for la in 0..=N {
+                for lb in 0..=M {
+                    if all_equal && (la > 1 || lb > 1) {
+                        continue;
+                    }
+                    self.cx.rep.evaluations += 1;
+                    let mut a: Set<Z, N> = Set::new();
+                    let mut b: Set<Z, M> = Set::new();
+                    for _ in 0..la {
+                        a.insert(Z::new());
+                    }
+                    for _ in 0..lb {
+                        b.insert(Z::new());
+                    }
+                    let shared = if all_equal { la.min(lb) } else { 0 };
+                    let want = [la + lb - shared, shared, la - shared, la + lb - 2 * shared];
+                    let got = [a.union(&b).count(), a.intersection(&b).count(), a.difference(&b).count(), a.symmetric_difference(&b).count()];
+                    let stepped = [
+                        a.union(&b).fold(0usize, |n, _| n + 1),
+                        a.intersection(&b).fold(0usize, |n, _| n + 1),
+                        { let mut it = a.difference(&b); let mut n = 0; while it.next().is_some() { n += 1; } n },
+                        { let mut it = a.symmetric_difference(&b); let mut n = 0; while it.next().is_some() { n += 1; } n },
+                    ];
+                    let d: Set<Z, N> = &a - &b;
+                    let preds = [a.is_subset(&b), a.is_superset(&b), a.is_disjoint(&b)];
+                    let wantp = [la == shared, lb == shared, shared == 0];
+                    if got != want || stepped != want || d.len() != la - shared || preds != wantp || a.len() != la || b.len() != lb {
+                        v("C08", "zero-sized", format!("zero-sized elements (all equal = {}): |A<{}>| = {}, |B<{}>| = {}: [union, intersection, difference, symmetric_difference] count() = {:?}, stepped/folded = {:?}, expected {:?}; |A - B| = {} (expected {}); [subset, superset, disjoint] = {:?}, expected {:?}", all_equal, N, la, M, lb, got, stepped, want, d.len(), la - shared, preds, wantp));
+                    }
+                    self.cx.rep.hit("zst");
+                }
+            }
+        }
+        z_set_eq(true);
+        if ledger::viol_total() > 0 {
+            self.cx.rep.absorb_violations("C08", &|| vec![format!("zero-sized elements N={} M={}", N, M)]);
         }
     }
 
